@@ -394,7 +394,7 @@ func c09run(k *c09case, generous bool) (o c09obs) {
 	if k.Slow {
 		dialT, dataT = time.Second, time.Second
 	}
-	if generous {
+	if generous && !k.Slow {
 		dialT, dataT = c09Generous, c09Generous
 	}
 	ctx, cancel := context.WithCancel(context.Background())
